@@ -1615,7 +1615,16 @@ def k23_random_tree_marks_when_expanded(ctx) -> None:
     if not marks:
         raise AnalysisError("K23: random_proof_tree no longer marks the classes it has expanded")
     for c in marks:
-        if c.func.attr == "add" and c.args and norm(c.args[0]) == f"{v}.label":
+        a0 = c.args[0] if c.args else None
+        if isinstance(a0, ast.Name):
+            rv = D.reaching_value(f, a0, a0.id)
+            if rv is not None and rv[1] is not None:
+                a0 = rv[1]
+            else:
+                ds0 = [d for d in D.definitions(f).get(a0.id, []) if d[1] is not None]
+                if ds0 and all(norm(d[1]) == f"{v}.label" and not d[2] for d in ds0):
+                    a0 = ds0[0][1]
+        if c.func.attr == "add" and a0 is not None and f"{v}.label" in (norm(a0), norm(D.expanded(f, a0))):
             ctx.ok("K23", "a class is marked as seen when its own node is taken from the queue")
         else:
             ctx.violation("K23", c, f"random_proof_tree marks `{norm(c.args[0])[:40] if c.args else '?'}` as seen, not the class of the node in hand (`{v}.label`): classes are "
